@@ -1,6 +1,7 @@
 package main
 
 import (
+	"math"
 	"time"
 
 	"github.com/dlclark/regexp2/v2/vsim"
@@ -117,7 +118,13 @@ func genC14(seed uint64) *Scenario {
 		cfg.WakeRunProb = uint32(400 + r.n(600))
 		cfg.Jitter = p / 4 * int64(r.n(2))
 	}
-	withStops := r.chance(1, 4)
+	// a few histories use timeouts of hours to centuries for calls that finish at once: they must not time out.
+	// The clock then legitimately runs for that long, so these histories have no long idle gaps and are not drained.
+	hugeTimeouts := r.chance(1, 12)
+	if hugeTimeouts {
+		sc.NoDrain = true
+	}
+	withStops := r.chance(1, 4) && !hugeTimeouts
 	nphases := 1
 	if withStops {
 		nphases = 2 + r.n(2)
@@ -178,6 +185,9 @@ func genC14(seed uint64) *Scenario {
 					if r.chance(1, 2) && maxD > 30*p {
 						d = 2*p + r.i64(28*p)
 					}
+					if r.chance(1, 12) {
+						d = []int64{1, 1000, p / 8, p / 2, p, p + 1}[r.n(6)] // timeouts below the clock period
+					}
 					op := Op{Kind: heavyKinds[r.n(len(heavyKinds))], Re: addRe(sc, ReSpec{Pat: f.Pat, Opts: f.Opts, Private: c + 1}), In: f.In, TimeoutNs: d, Heavy: true, N: -1, Repl: "<$0>"}
 					if v := pristine(sc.Res[op.Re], &op, defaultOpCap); !v.capped {
 						continue // not catastrophic on this tree: not a subject of this property
@@ -193,6 +203,10 @@ func genC14(seed uint64) *Scenario {
 					}
 					maxC := cost
 					d := 2*p + 8*int64(ncl)*v.steps*maxC + r.i64(100*p)
+					if hugeTimeouts && r.chance(1, 2) {
+						// very long timeouts, up to the largest value that is not the "no timeout" sentinel
+						d = []int64{int64(time.Hour), 24 * int64(time.Hour), 100 * 365 * 24 * int64(time.Hour), math.MaxInt64 - int64(time.Second), math.MaxInt64 - p/2, math.MaxInt64 - 1}[r.n(6)]
+					}
 					op.TimeoutNs = d
 					cl.Ops = append(cl.Ops, op)
 					lastD, lastHeavy = d, false
@@ -201,6 +215,10 @@ func genC14(seed uint64) *Scenario {
 					op := Op{Kind: heavyKinds[r.n(len(heavyKinds))], Re: addRe(sc, ReSpec{Pat: f.Pat, Opts: f.Opts, Private: c + 1}), In: f.In, TimeoutNs: -1, N: -1, Repl: "<$0>"}
 					cl.Ops = append(cl.Ops, op)
 				default: // idle gap around the clock's shutdown slop
+					if hugeTimeouts {
+						cl.Ops = append(cl.Ops, Op{Kind: OpIdle, IdleNs: []int64{p / 2, 3 * p, 10 * p}[r.n(3)]})
+						continue
+					}
 					s := int64(time.Second)
 					// when the clock goroutine exits, measured from the end of the previous timed call: a call
 					// that ran into its deadline ends at about the deadline (exit ~1s + a tick or two later),
